@@ -3,7 +3,8 @@ import MwVerif.Model.Templ
 
 /-! node trees cross the protocol in prefix form, tokens separated by blanks:
 `x<cp,cp,…>` text, `e` eqmark, `s<n>` sequence of n nodes, `t<n>` template (name, n args),
-`v0`/`v1` variable without/with default, `i<n>` #if node with n args, `o` opaque. -/
+`v0`/`v1` variable without/with default, `i<n>` #if node with n args, `q<n>` #ifeq node, `w<n>` #switch node (value, n case arguments),
+`o` opaque. -/
 namespace MwVerif.Driver.Templ
 open MwVerif.Templ MwVerif.Driver
 
@@ -30,6 +31,12 @@ mutual
         | none => none
       else if tok.startsWith "i" then
         (parseMany ((tok.drop 1).toString.toNat?.getD 0) rest []).map fun p => (.ifNode p.1, p.2)
+      else if tok.startsWith "q" then
+        (parseMany ((tok.drop 1).toString.toNat?.getD 0) rest []).map fun p => (.ifeqNode p.1, p.2)
+      else if tok.startsWith "w" then
+        match parseNode rest with
+        | some (value, r) => (parseMany ((tok.drop 1).toString.toNat?.getD 0) r []).map fun p => (.switchNode value p.1, p.2)
+        | none => none
       else none
   partial def parseMany : Nat → List String → List Node → Option (List Node × List String)
     | 0, rest, acc => some (acc.reverse, rest)
